@@ -318,7 +318,10 @@ FlavourViol(g2, ev) ==
        (IF ev.op \in {"encaps", "recaps"} /\ ev.res = "ok" /\ Has(ev, "encv") /\ ev.e \in DOMAIN g2.enc
            /\ g2.enc[ev.e].tg # {} /\ ev.encv.h # g2.enc[ev.e].h
         THEN {Vio({"C11"}, "encapsulation flavour differs from the hints of its targets",
-                  IF AliasBetween(UNION {x.c : x \in g2.enc[ev.e].tgx}, DOMAIN ids) THEN "alias" ELSE "none",
+                  \* (a re-encapsulation walks every right of the master key: any shared identifier of the history matters)
+                  IF AliasBetween(UNION {x.c : x \in g2.enc[ev.e].tgx}, DOMAIN ids)
+                     \/ (ev.op = "recaps" /\ \E a, b \in DOMAIN ids : a # b /\ ids[a] = ids[b] /\ ids[a] >= 0)
+                  THEN "alias" ELSE "none",
                   <<ev.e, ev.encv.h, g2.enc[ev.e].h>>)}
         ELSE {})
        \cup
@@ -463,6 +466,7 @@ Call(ev) ==
                            OpensViol(g3, ev) \cup RecapsViol(g3, ev) \cup FlavourViol(g3, ev)
                            \cup HeldViol(ev) \cup IdViol(ev))
     IN /\ g' = g3
+       /\ IF GhostWF(g3) THEN TRUE ELSE PrintT(<<"PTRACE-GHOST-INCONSISTENT", l>>)
        /\ sync' = ~lostSync
        /\ viol' = viol \cup {x \in newviol : ~\E y \in viol : y.hist = x.hist /\ y.what = x.what /\ y.detail = x.detail}
        /\ opened' = IF Has(ev, "opens") THEN OpenedFrom(ev) ELSE opened
